@@ -185,6 +185,17 @@ CHECKS = {
             'Trusted: the model of the generated tree, posixpath.normpath, mimetypes; seams on '
             'clastic.static.isfile/open/os and the peek read.',
             'DESIGN.md section 5, C14'),
+    'C15': ('E1-product-enumerator',
+            'bounded-exhaustive enumeration of middleware stacks x request catalogue; differential comparison with '
+            'the same application without the stack',
+            'All singles, ordered pairs and ordered triples (thorough: quadruples) of the 10 built-in middlewares in '
+            'default configuration on a scenario application producing every response kind (Response with 7 body '
+            'kinds, rendered context, streamed, endpoint redirect, slash redirect, raised/returned 4xx, raised 5xx, '
+            'non-breaking fall-through, uncaught exception, unknown URL, wrong method, HEAD, POST form) x 10 '
+            'Accept-Encoding values x 3 query strings; status, decoded body and Location must equal the baseline; '
+            'gzip: lossless, Content-Length == bytes sent, Vary, never sent to a client that refuses it.',
+            'Trusted: the baseline application (differential oracle), gzip module, a small Accept-Encoding reading.',
+            'DESIGN.md section 5, C15'),
 }
 
 NOT_YET = 'check not built yet in this revision of /verif (planned: bounded exhaustive exploration, see DESIGN.md section 5)'
